@@ -23,4 +23,9 @@ for p in "$@"; do
   echo "$out" | grep -E "^(VIOLATION|HARNESS-ERROR)" | head -3
   echo "$out" | grep -E "^  key=" | head -3
   echo "$out" | tail -1 | sed "s/^/[rc=$r] /"
+  rp=$(echo "$out" | grep -m1 "^VIOLATION" | sed 's/.*replay=//')
+  if [ -n "$rp" ]; then
+    ( cd "$V" && VERIF_REPO="$wt" ./check "$p" --replay "$rp" >/dev/null 2>&1 ); echo "replay on changed tree: exit $? (want 1)"
+    ( cd "$V" && ./check "$p" --replay "$rp" >/dev/null 2>&1 ); echo "replay on /repo: exit $? (want 0)"
+  fi
 done
